@@ -809,7 +809,10 @@ impl SaleWorld {
             }
             Op::Migrate { who, stored } => {
                 if let Some((n, v)) = stored {
-                    crate::w_migrate::set_cw2(&mut self.app, &self.minter, n, v);
+                    // "@own" stands for what the contract stored at creation
+                    let n = if n == "@own" { self.own_cw2.0.clone() } else { n.clone() };
+                    let v = if v == "@own" { self.own_cw2.1.clone() } else { v.clone() };
+                    crate::w_migrate::set_cw2(&mut self.app, &self.minter, &n, &v);
                 }
                 let (name, version) = crate::w_migrate::get_cw2(&self.app, &self.minter);
                 let now = chain::now(&self.app);
@@ -1089,5 +1092,79 @@ pub fn wrap_item(s: &str, record_prefix: &str, ctor: &str) -> String {
         format!("({} {})", ctor, s)
     } else {
         s.to_string()
+    }
+}
+
+// ---------- migrations inside histories: shared generator pieces ----------
+/// stored cw2 versions worth trying: every `Version::new(a, b, c)` literal of the nine
+/// minters' sources with its patch / minor neighbours, the code's own version ("@own") and
+/// its neighbours, a far future version, and strings that do not parse
+pub fn migrate_version_pool() -> Vec<String> {
+    let repo = std::env::var("VERIF_REPO").unwrap_or_else(|_| "/repo".to_string());
+    let mut out: std::collections::BTreeSet<String> = std::collections::BTreeSet::new();
+    let mut around = |a: u64, b: u64, c: u64, out: &mut std::collections::BTreeSet<String>| {
+        out.insert(format!("{}.{}.{}", a, b, c));
+        out.insert(format!("{}.{}.{}", a, b, c + 1));
+        out.insert(format!("{}.{}.0", a, b + 1));
+        if c > 0 {
+            out.insert(format!("{}.{}.{}", a, b, c - 1));
+        } else if b > 0 {
+            out.insert(format!("{}.{}.9", a, b - 1));
+            out.insert(format!("{}.{}.0", a, b - 1));
+        }
+    };
+    let mut names: Vec<String> = VARIANTS.iter().map(|v| v.name.to_string()).collect();
+    names.extend(["open-edition-minter", "open-edition-minter-wl-flex", "open-edition-minter-merkle-wl"].iter().map(|s| s.to_string()));
+    for n in names {
+        let p = std::path::Path::new(&repo).join(format!("contracts/minters/{}/src/contract.rs", n));
+        let Ok(src) = std::fs::read_to_string(&p) else { continue };
+        let mut rest = &src[..];
+        while let Some(i) = rest.find("Version::new(") {
+            rest = &rest[i + "Version::new(".len()..];
+            let end = rest.find(')').unwrap_or(0);
+            let nums: Vec<u64> = rest[..end].split(',').filter_map(|x| x.trim().parse().ok()).collect();
+            if nums.len() == 3 {
+                around(nums[0], nums[1], nums[2], &mut out);
+            }
+        }
+        // the workspace version the code reports
+        if let Ok(toml) = std::fs::read_to_string(std::path::Path::new(&repo).join("Cargo.toml")) {
+            if let Some(l) = toml.lines().find(|l| l.trim_start().starts_with("version") && l.contains('"')) {
+                let v = l.split('"').nth(1).unwrap_or("");
+                if let Some((a, b, c)) = parse_plain_version(v) {
+                    around(a, b, c, &mut out);
+                }
+            }
+        }
+    }
+    around(3, 9, 0, &mut out);
+    let mut v: Vec<String> = out.into_iter().collect();
+    v.extend(["@own", "@own", "99.0.0", "0.0.1", "abc", "3.9", ""].iter().map(|s| s.to_string()));
+    v
+}
+
+/// (sender, stored) of one random migration: mostly the wasm admin, mostly the own name
+pub fn gen_migrate_args(rng: &mut Rng, pool: &[String]) -> (String, Option<(String, String)>) {
+    let who = if rng.chance(6, 7) { CREATOR } else { *rng.pick(&[STRANGER, BUYERS[0], PAYADDR]) };
+    let stored = if rng.chance(1, 7) {
+        None
+    } else {
+        let name = if rng.chance(1, 10) { "crates.io:something-else".to_string() } else { "@own".to_string() };
+        Some((name, rng.pick(pool).clone()))
+    };
+    (who.to_string(), stored)
+}
+
+/// insert migrations into a generated history: each position with probability `permille`/1000
+pub fn sprinkle_migrates(rng: &mut Rng, ops: &mut Vec<Op>, permille: u64) {
+    let pool = migrate_version_pool();
+    let mut i = 0;
+    while i <= ops.len() {
+        if rng.below(1000) < permille {
+            let (who, stored) = gen_migrate_args(rng, &pool);
+            ops.insert(i, Op::Migrate { who, stored });
+            i += 1;
+        }
+        i += 1;
     }
 }
